@@ -454,6 +454,38 @@ impl<K: VKey, V> BTreeMap<K, V> {
             self.insert(k, v);
         }
     }
+    /// Splits the map at `key`: returns everything >= key.
+    pub fn split_off<Q: ?Sized + VKey>(&mut self, key: &Q) -> Self
+    where
+        K: Borrow<Q>,
+    {
+        let m = self.me();
+        let pos = m.lower_bound(key);
+        let out = Self::new();
+        let o = out.me();
+        let mut j = 0;
+        while j < CAP {
+            if j >= pos && j < m.len {
+                // move entry j to position j - pos of the result (concrete scan)
+                let mut t = 0;
+                while t < CAP {
+                    if t + pos == j {
+                        unsafe {
+                            mv(&mut o.keys[t], &mut m.keys[j]);
+                            mv(&mut o.vals[t], &mut m.vals[j]);
+                        }
+                    }
+                    t += 1;
+                }
+            }
+            j += 1;
+        }
+        if pos < m.len {
+            o.len = m.len - pos;
+            m.len = pos;
+        }
+        out
+    }
 }
 
 impl<K: Clone, V: Clone> Clone for BTreeMap<K, V> {
@@ -735,6 +767,12 @@ impl<K: VKey> BTreeSet<K> {
     }
     pub fn retain<F: FnMut(&K) -> bool>(&mut self, mut f: F) {
         self.m.retain(|k, _| f(k))
+    }
+    pub fn split_off<Q: ?Sized + VKey>(&mut self, key: &Q) -> Self
+    where
+        K: Borrow<Q>,
+    {
+        Self { m: self.m.split_off(key) }
     }
     pub fn extend<I: IntoIterator<Item = K>>(&mut self, it: I) {
         for k in it {
